@@ -136,6 +136,10 @@ def run(ctx):
             ctx.nontrivial.add(sha(["stress-listings", len(o["listings"])]))
     for i in rejected:
         o = obs[i]
+        if o["kind"] == "linpair" and o["outcome"] == "hang" and o["gateAt"] == 0:
+            ctx.violation({"op": "deadlock", "ops": sorted([o["op1"].split("(")[0], o["op2"].split("(")[0]])},
+                          f"{o['op1']} then {o['op2']}: {o['detail']}", obs=o)
+            continue
         if o["kind"] == "linpair":
             ctx.violation({"op": "atomicity", "op1": o["op1"].split("(")[0], "op2": o["op2"].split("(")[0]},
                           f"{o['op1']} parked before its lock acquisition #{o['gateAt']} while {o['op2']} ran: outcome {o['inter']} equals neither sequential order "
